@@ -3,7 +3,8 @@
 Correspondence: la.solve / la.inv / la.det / LU.invab / la.matmul / la.dot / @ / la.transpose are run
 on arrays of Python ints, floats and uncertain reals (elementary, shared, intermediate,
 zero-valued-with-uncertainty; sizes 1..6; matrices that need row pivoting; singular and
-mis-shaped ones) and the outcome -- every result element (value, the three component vectors,
+mis-shaped ones; arguments passed as plain arrays, transpose views, Fortran-ordered arrays, windows,
+strided and reversed views of larger base arrays -- the model receives the logical element matrix) and the outcome -- every result element (value, the three component vectors,
 node kind), the contents of the argument arrays after the call, or the exception class -- is
 compared bit for bit with the Gallina model LU.v instantiated at LUInst.FElt (FNum), evaluated
 inside coqc.  The theorems (coq/LUFacts.v, coq/DualRing.v, coq/props/C15.v) are about the same
